@@ -74,7 +74,7 @@ def close_reason(max_bytes=123):
     free = st.text(st.one_of(_alphabet, _boundary_chars), max_size=30).map(lambda s: _clip_utf8(s, max_bytes))
     sized = st.builds(lambda n, ch: _clip_utf8(ch * n, max_bytes),
                       st.sampled_from([0, 1, max_bytes - 3, max_bytes - 2, max_bytes - 1, max_bytes, max_bytes + 40]),
-                      st.sampled_from(["r", "\u00e9", "\u20ac", "\U0001f600"]))
+                      st.sampled_from(["r", "\u00e9", "\u20ac", "\U0001f600", "{", "%s{0}"]))
     return weighted([(3, free), (2, sized)])
 
 
